@@ -393,6 +393,10 @@ pub(crate) struct LogReader {
     older or empty view of the database.
     */
     fail_on_corruption: bool,
+
+    /// True if the end of the file was reached while the fragments of a record were still being
+    /// collected i.e. the file ends with the leading fragments of an unfinished record.
+    ended_inside_record: bool,
 }
 
 /// Public methods
@@ -419,6 +423,7 @@ impl LogReader {
             current_cursor_position: initial_block_offset,
             current_block_offset: 0,
             fail_on_corruption: false,
+            ended_inside_record: false,
         };
 
         Ok(reader)
@@ -451,7 +456,10 @@ impl LogReader {
             if let Err(physical_read_err) = maybe_record {
                 if let LogIOError::IO(db_io_error) = &physical_read_err {
                     match db_io_error.kind() {
-                        ErrorKind::UnexpectedEof => return Ok((vec![], true)),
+                        ErrorKind::UnexpectedEof => {
+                            self.ended_inside_record = in_fragmented_record;
+                            return Ok((vec![], true));
+                        }
                         _ => return Err(physical_read_err),
                     }
                 }
@@ -545,11 +553,12 @@ impl LogReader {
     Returns true if every byte of the file has been consumed by complete records.
 
     This is false after reaching the end of a file whose tail holds an incomplete record e.g. a
-    write that was torn by a crash. Appending to such a file would leave the new records behind
+    write that was torn by a crash or a multi-fragment record whose last fragments were never
+    written. Appending to such a file would leave the new records behind
     bytes that a reader cannot get past, so such a file must not be reused for appends.
     */
     pub(crate) fn is_at_clean_end(&self) -> LogIOResult<bool> {
-        Ok(self.current_cursor_position as u64 == self.len()?)
+        Ok(!self.ended_inside_record && self.current_cursor_position as u64 == self.len()?)
     }
 }
 
